@@ -73,10 +73,38 @@ Definition token_at (ts : list token) (off : nat) (t : token) : Prop :=
   exists pre post, ts = pre ++ t :: post /\
     (length (texts pre) <= off < length (texts pre) + length (tok_text t))%nat.
 
-(* (e) in  x ++ pad ++ LF LF ++ y  the first line feed of the blank line lies in a
-   Subexpression token, for every run [pad] of spaces and tabs *)
+(* (e) a blank line is a pair of consecutive line feeds.  The token that contains the
+   first of them must be a Subexpression token -- unless that line feed lies inside a
+   char/byte list literal or ends a line annotation (whose token includes its line feed
+   by design).  Nothing is said about what precedes the blank line, so trailing spaces
+   or tabs on the line before it make no difference. *)
+Definition blank_line_at (s : list N) (i : nat) : Prop :=
+  nth_error s i = Some 10 /\ nth_error s (S i) = Some 10.
+
+Definition separator_or_literal (ty : token_type) : Prop :=
+  ty = TT_Subexpression \/ ty = TT_CharList \/ ty = TT_ByteList \/ ty = TT_LineAnnotation.
+
+Definition blank_lines_separate (ts : list token) : Prop :=
+  forall i t, blank_line_at (texts ts) i -> token_at ts i t -> separator_or_literal (tok_type t).
+
+(* the same for an input written as  x ++ pad ++ LF LF ++ y *)
 Definition blank_line_separates (x pad y : list N) (ts : list token) : Prop :=
-  exists t, token_at ts (length x + length pad) t /\ tok_type t = TT_Subexpression.
+  forall t, token_at ts (length x + length pad) t ->
+    tok_type t <> TT_CharList -> tok_type t <> TT_ByteList -> tok_type t <> TT_LineAnnotation ->
+    tok_type t = TT_Subexpression.
+
+(* the form in which DESIGN.md section 8 states the clause: the prefix x lexes on its own
+   and does not end in a line annotation; then a Subexpression token covers the first line
+   feed of the blank line.  (Not proved as such: it needs a compositional lemma relating
+   lex x to the state reached after x inside the longer input; the theorems proved are the
+   two forms above, which replace the hypothesis on x by the type of the covering token.) *)
+Definition blank_line_full_statement (lexf : list N -> option (list token)) : Prop :=
+  forall x pad y tx ts,
+    lexf x = Some tx ->
+    (match rev tx with t :: _ => tok_type t <> TT_LineAnnotation | [] => True end) ->
+    forallb is_pad pad = true ->
+    lexf (x ++ pad ++ [10; 10] ++ y) = Some ts ->
+    exists t, token_at ts (length x + length pad) t /\ tok_type t = TT_Subexpression.
 
 (* ------------------------------------------- executable versions (oracle) *)
 Definition check_lossless (s : list N) (ts : list token) : bool := list_N_eqb (texts ts) s.
